@@ -206,7 +206,27 @@ def s_quat():
         st.sampled_from([0.0, 0.0, 1e-12, -1e-12, 1e-9]),
         st.lists(gen.q(-1, 1), min_size=3, max_size=3).filter(lambda v: sum(x * x for x in v) > 0.05),
     ).map(lambda t: [t[0]] + t[1])
-    return st.fixed_dictionaries({"q": st.one_of(gen.unit_quaternion_case(), gen.unit_quaternion_case(), half_turn)})
+    return st.fixed_dictionaries({"q": st.one_of(gen.unit_quaternion_case(), gen.unit_quaternion_case(), half_turn),
+                                  # the receiver of from_vector: None = a fresh identity, else the k-th of the 24 axis-
+                                  # aligned rotations written with integers (0 / +-1) in an integer-typed matrix
+                                  "base": st.one_of(st.none(), st.none(), st.integers(0, 23))})
+
+
+def _int_rotations():
+    import itertools
+
+    out = []
+    for perm in itertools.permutations(range(3)):
+        for signs in itertools.product([1, -1], repeat=3):
+            m = np.zeros((3, 3), dtype=np.int64)
+            for r_, (c_, sg) in enumerate(zip(perm, signs)):
+                m[r_, c_] = sg
+            if round(float(np.linalg.det(m))) == 1:
+                out.append(m)
+    return out
+
+
+INT_ROTATIONS = _int_rotations()
 
 
 def c_quat(case, ctx):
@@ -215,7 +235,12 @@ def c_quat(case, ctx):
     ctx.event("q0~0 (half turn)" if abs(qv[0]) < 1e-6 else "q0>0")
     if abs(qv[0]) < 1e-6:
         ctx.event("half-turn axis signs mixed" if min(qv[1:]) < 0 < max(qv[1:]) else "half-turn axis signs same")
-    r = Rotation.init_3d_from_quaternion(qv)
+    if case.get("base") is None:
+        r = Rotation.init_3d_from_quaternion(qv)
+    else:
+        base = Rotation(INT_ROTATIONS[case["base"] % len(INT_ROTATIONS)].copy())
+        ctx.event("receiver built from an integer-typed matrix")
+        r = base.from_vector(qv)
     ctx.expect(isinstance(r, Rotation) and r.n_dims == 3, "quat.class", type(r).__name__)
     want = quat_matrix(qv)
     ctx.expect(close(r.rotation_matrix, want, atol=1e-9), "quat.matrix", lambda: describe(r.rotation_matrix, want))
